@@ -479,6 +479,11 @@ func (ds *DataStoreSet) updateFullScan(ctx context.Context, store *DataStore, la
 		scanColumns = append(scanColumns, "next_check")
 	}
 
+	// any change bumps last_update, comparing it finds updates which have been missed, ex.: because a previous update run failed half way
+	if peer.HasFlag(HasLastUpdateColumn) {
+		scanColumns = append(scanColumns, "last_update")
+	}
+
 	// used to sort result later
 	scanColumns = append(scanColumns, store.table.primaryKey...)
 	req := &Request{
